@@ -69,6 +69,10 @@ def history_restore(eng: int, c0: int, c1: int, c2: int, c3: int, c4: int, c5: i
     hnodes = [n for n in sk.nodes if n.type == "history"]
     h = hnodes[pick(hn, len(hnodes))]
     parent = h.parent
+    reach = common.get_reach(sk)
+    if reach.hist_errors:
+        _note("recording defect on a public run: " + reach.hist_errors[0])
+        return verdict(False)
     pre = base._prestate(sk, eng, [c0, c1, c2, c3, c4, c5], hsel)
     if pre is None:
         return verdict(True, nontrivial=False)
@@ -126,9 +130,9 @@ OBLIGATIONS = {"history_restore": history_restore}
 def items(tier: str, seed: int) -> List[Dict[str, Any]]:
     out: List[Dict[str, Any]] = []
     quick = tier == "quick"
-    cur = ["CUR4", "CUR5", "CUR9", "CUR12", "CUR13"]
+    cur = ["CUR4", "CUR5", "CUR9", "CUR12", "CUR13", "CUR14"]
     fam = [(sid, spec) for sid, spec in skeletons.gen(5, 3, limit=4000, seed=seed + 3) if skeletons._count(spec, "h") >= 1]
-    fam = fam[: (10 if quick else 150)]
+    fam = fam[: (40 if quick else 300)]
     for sid in cur:
         spec = skeletons.CURATED[sid]
         for eng in (0, 1):
